@@ -1,13 +1,44 @@
 (** C16 -- assembling the disassembler's output reproduces the program.
-    What is proved here is the two halves on which the round trip rests (each over code regenerated from the source),
-    and the statement of the round trip as an executable specification used by the correspondence check.
-    PARTIAL: the lemma that the parser model reads the rendered text back (parse (render i) = operands of i, for all
-    field values) is not proved; it is evaluated on every generated program by checks/C16.py. *)
+    Statements only; proofs in theories/RoundTripFinal.v (resting on DisasmProofs, TextParse/NumText/RenderText, AsmEncode).
+    Model of the round trip: [roundtrip p] = regenerated disassembler (coq/gen/Disasm.v), lines joined with a newline, then
+    the assembler model (parser hand-modelled in AsmParser.v; assembler.rs and ebpf.rs regenerated).
+    Scope of the theorems: programs in the disassembler's domain whose instructions are [renderable] -- every opcode
+    except tail_call (its mnemonic contains an underscore and does not parse as an identifier) and byte swaps with a
+    width other than 16/32/64; for those the assembler rejects the text, which is evaluated by checks/C16.py, not proved. *)
 From Coq Require Import ZArith List String.
-From RbpfV Require Import MachInt Ebpf Fmt DisasmDefs DisasmSpec DisasmProofs AsmDefs AsmParser AsmModel AsmSpec AsmProofs AsmEncode RoundTrip RoundTripProofs.
+From RbpfV Require Import MachInt Ebpf Fmt DisasmDefs DisasmSpec DisasmProofs AsmDefs AsmParser AsmModel AsmSpec AsmProofs AsmEncode RoundTrip RoundTripProofs TextParse RenderText RoundTripFinal.
 From RbpfV.gen Require Import Codec Disasm Asm.
 Import ListNotations.
 Open Scope Z_scope.
+
+(** THE ROUND TRIP, for every program of any length and all field values: the result is the canonical form of the program
+    (fields an instruction uses kept, the others cleared) when every instruction is expressible -- its mnemonic exists in
+    the assembler and its 32-bit immediate, if it has one, is non-negative (any 64-bit value for lddw) -- and an error otherwise *)
+Theorem C16_roundtrip : forall p t,
+  bytes_ok p -> len p mod 8 = 0 -> len p < 2 ^ 63 ->
+  hl_list (decode_all p) = Some t -> all_renderable (decode_all p) = true ->
+  roundtrip p = if all_expressible (decode_all p) then Ok (bytes_of_insns (canon (decode_all p))) else Err 0.
+Proof. exact roundtrip_spec. Qed.
+
+(** first sentence of the property: expressible instructions, unused fields zero (canonical form) => the original bytes *)
+Theorem C16_reproduces_program : forall p t,
+  bytes_ok p -> len p mod 8 = 0 -> len p < 2 ^ 63 ->
+  hl_list (decode_all p) = Some t -> all_renderable (decode_all p) = true ->
+  all_expressible (decode_all p) = true -> canon (decode_all p) = decode_all p ->
+  roundtrip p = Ok p.
+Proof. exact roundtrip_exact. Qed.
+
+(** second sentence: whenever the assembler accepts the text, the result is the canonical form, never another instruction *)
+Theorem C16_accepts_only_canonical : forall p t q,
+  bytes_ok p -> len p mod 8 = 0 -> len p < 2 ^ 63 ->
+  hl_list (decode_all p) = Some t -> all_renderable (decode_all p) = true ->
+  roundtrip p = Ok q -> q = bytes_of_insns (canon (decode_all p)).
+Proof. exact roundtrip_canonical. Qed.
+
+(** the parser model reads back any program text made of well-formed printed lines (the closing lemma) *)
+Theorem C16_parser_reads_printed_text : forall U ls, Forall (line_ok) ls ->
+  parse U (prog_text ls) = Ok (map (fun x => ival (fst x) (snd x)) ls).
+Proof. exact parse_prog_text. Qed.
 
 (** first half: the text handed to the assembler is the specified rendering of the program's instructions *)
 Theorem C16_text_is_specified : forall p t,
@@ -34,6 +65,10 @@ Example C16_example :
   roundtrip [0xb7; 0x21; 0x34; 0x12; 5; 0; 0; 0] = Ok [0xb7; 0x01; 0; 0; 5; 0; 0; 0].
 Proof. vm_compute. split; reflexivity. Qed.
 
+Print Assumptions C16_roundtrip.
+Print Assumptions C16_reproduces_program.
+Print Assumptions C16_accepts_only_canonical.
+Print Assumptions C16_parser_reads_printed_text.
 Print Assumptions C16_text_is_specified.
 Print Assumptions C16_bytes_of_parsed_text.
 Print Assumptions C16_no_panic.
